@@ -17,7 +17,7 @@ OUTSIDE = ["operation histories longer than 2 are covered only by the inductive 
 BOUNDS = {"quick": {"rows": 3, "id_domains": "see assumptions"}, "thorough": {"rows": 3, "pairs_of_operations": True}}
 EXPECTED_EXCEPTIONS = ()
 OPTS = {"max_paths": 3000}
-IDX = {"default": None, "gaps": [7, 2, 5, 11]}
+IDX = {"default": None, "gaps": [7, 2, 5, 11, 3, 8]}
 
 
 def _conc(env, v):
@@ -67,9 +67,9 @@ def _same_rows(env, name, df, expected, ignore=()):
 
 # --- operations --------------------------------------------------------------------------------
 
-def h_subset(env, feature="tomo_id", values=(2.0, 1.0), index="default", reset_index=True):
+def h_subset(env, feature="tomo_id", values=(2.0, 1.0), index="default", reset_index=True, domain=(1, 2, 3)):
     cm = env.module("cryomotl")
-    rows = _rows(env, 3, "a", {feature: [1, 2, 3]})
+    rows = _rows(env, 3, "a", {feature: list(domain)})
     m = _motl(env, cm, rows, index)
     vals = list(values)
     out = m.get_motl_subset(vals if len(vals) > 1 else vals[0], feature_id=feature, reset_index=reset_index)
@@ -153,29 +153,39 @@ def h_drop_duplicates(env, ascending=False, index="default"):
         env.check("kept_row_unchanged_%d" % i, env.and_(*[env.eq(a[c], orig[0][c]) for c in COLS]) if orig else _false(env))
 
 
-def h_merge_and_renumber(env, index="default"):
+def h_merge_and_renumber(env, index="default", sizes=(2, 2)):
     cm = env.module("cryomotl")
-    r1 = _rows(env, 2, "a", {"object_id": [1, 2, 5]})
-    r2 = _rows(env, 2, "b", {"object_id": [1, 2, 5]}, base_rid=200)
-    for k, r in enumerate(r1 + r2):
-        r["subtomo_id"] = [7.0, 3.0, 3.0, 1.0][k]      # unsorted, repeated ids before renumbering
-    m1, m2 = _motl(env, cm, r1, index), _motl(env, cm, r2)
-    out = cm.Motl.merge_and_renumber([m1, m2])
+    lists = []
+    for li, n in enumerate(sizes):
+        lists.append(_rows(env, n, "abcd"[li], {"object_id": [1, 2, 5]}, base_rid=100 * (li + 1)))
+    allrows = [r for l in lists for r in l]
+    for k, r in enumerate(allrows):
+        r["subtomo_id"] = [7.0, 3.0, 3.0, 1.0, 9.0, 2.0][k]      # unsorted, repeated ids before renumbering
+    motls = [_motl(env, cm, l, index if li == 0 else "default") for li, l in enumerate(lists)]
+    out = cm.Motl.merge_and_renumber(motls)
     df = out.df
+    N = len(allrows)
     env.check("has_20_fields", env.true() if df.shape[1] == 20 and sorted(df.columns) == sorted(COLS) else _false(env))
-    env.check("row_count", env.true() if df.shape[0] == 4 else _false(env))
-    if df.shape[0] != 4:
+    env.check("row_count", env.true() if df.shape[0] == N else _false(env))
+    if df.shape[0] != N:
         return
-    env.check("subtomo_ids_1_to_N", env.true() if [float(v) for v in df["subtomo_id"]] == [1.0, 2.0, 3.0, 4.0] else _false(env))
+    env.check("subtomo_ids_1_to_N", env.true() if [float(v) for v in df["subtomo_id"]] == [float(k + 1) for k in range(N)] else _false(env))
     o = [float(v) for v in df["object_id"]]
-    env.check("objects_do_not_collide_across_inputs", env.true() if not (set(o[:2]) & set(o[2:])) else _false(env))
-    env.check("grouping_kept_first", env.true() if (o[0] == o[1]) == (r1[0]["object_id"] == r1[1]["object_id"]) else _false(env))
-    env.check("grouping_kept_second", env.true() if (o[2] == o[3]) == (r2[0]["object_id"] == r2[1]["object_id"]) else _false(env))
-    for i, r in enumerate(r1 + r2):
+    pos = 0
+    groups = []
+    for l in lists:
+        groups.append(o[pos:pos + len(l)])
+        pos += len(l)
+    collide = any(set(groups[a]) & set(groups[b]) for a in range(len(groups)) for b in range(a + 1, len(groups)))
+    env.check("objects_do_not_collide_across_inputs", env.true() if not collide else _false(env))
+    for li, l in enumerate(lists):
+        ok = all((groups[li][a] == groups[li][b]) == (l[a]["object_id"] == l[b]["object_id"]) for a in range(len(l)) for b in range(len(l)))
+        env.check("grouping_kept_input_%d" % li, env.true() if ok else _false(env))
+    for i, r in enumerate(allrows):
         a = row(df, i)
         env.check("other_fields_unchanged_%d" % i, env.and_(*[env.eq(a[c], r[c]) for c in COLS if c not in ("subtomo_id", "object_id")]))
-    _same_rows(env, "first_untouched", m1.df, r1)
-    _same_rows(env, "second_untouched", m2.df, r2)
+    for li, (m, l) in enumerate(zip(motls, lists)):
+        _same_rows(env, "input_%d_untouched" % li, m.df, l)
 
 
 def h_merge_and_drop_duplicates(env):
@@ -198,17 +208,17 @@ def h_merge_and_drop_duplicates(env):
             env.check("other_fields_unchanged_%d" % i, env.and_(*[env.eq(a[c], orig[0][c]) for c in COLS if c != "object_id"]) if orig else _false(env))
 
 
-def h_renumber_objects(env, index="default", start=1):
+def h_renumber_objects(env, index="default", start=1, n=3, odom=(1, 2, 5)):
     cm = env.module("cryomotl")
-    rows = _rows(env, 3, "a", {"tomo_id": [1, 2], "object_id": [1, 2, 5]})
+    rows = _rows(env, n, "a", {"tomo_id": [1, 2], "object_id": list(odom)})
     m = _motl(env, cm, rows, index)
     m.renumber_objects_sequentially(start) if start != 1 else m.renumber_objects_sequentially()
     df = m.df
     env.check("has_20_fields", env.true() if df.shape[1] == 20 and sorted(df.columns) == sorted(COLS) else _false(env))
-    env.check("row_count", env.true() if df.shape[0] == 3 else _false(env))
-    if df.shape[0] != 3 or df.shape[1] != 20:
+    env.check("row_count", env.true() if df.shape[0] == n else _false(env))
+    if df.shape[0] != n or df.shape[1] != 20:
         return
-    got = {float(df["geom1"].iloc[i]): float(df["object_id"].iloc[i]) for i in range(3)}
+    got = {float(df["geom1"].iloc[i]): float(df["object_id"].iloc[i]) for i in range(n)}
     # same (tomogram, object) grouping
     ok = True
     for r in rows:
@@ -219,7 +229,7 @@ def h_renumber_objects(env, index="default", start=1):
     env.check("grouping_kept", env.true() if ok else _false(env))
     vals = sorted(set(got.values()))
     env.check("consecutive_numbers_from_start", env.true() if vals == [float(start + k) for k in range(len(vals))] else _false(env))
-    for i in range(3):
+    for i in range(n):
         a = row(df, i)
         orig = [r for r in rows if r["geom1"] == float(a["geom1"])][0]
         env.check("other_fields_unchanged_%d" % i, env.and_(*[env.eq(a[c], orig[c]) for c in COLS if c != "object_id"]))
@@ -281,7 +291,11 @@ def jobs(tier, seed):
         ("h_drop_duplicates", {"ascending": True, "index": "gaps"}),
         ("h_merge_and_renumber", {}),
         ("h_merge_and_renumber", {"index": "gaps"}),
+        ("h_merge_and_renumber", {"sizes": [1, 2, 1]}),
         ("h_merge_and_drop_duplicates", {}),
+        ("h_renumber_objects", {"n": 4, "odom": [1, 2]}),
+        ("h_subset", {"feature": "subtomo_id", "values": [200002.0], "domain": [200001, 200002, 7]}),
+        ("h_subset", {"feature": "score", "values": [0.75], "domain": [0.75, 0.750001, 0.5]}),
         ("h_renumber_objects", {}),
         ("h_renumber_objects", {"index": "gaps", "start": 4}),
         ("h_renumber_particles", {"index": "gaps"}),
